@@ -69,11 +69,27 @@ func (s *fbServer) serveUDP() {
 			s.uc.WriteToUDP(hx.BuildReply(q, false, 0, [4]byte{1, 1, 1, 1}, 60), addr)
 		case "tc":
 			s.uc.WriteToUDP(hx.BuildReply(q, true, 0, [4]byte{1, 1, 1, 2}, 60), addr)
+		case "bigplain":
+			// a 2049..4096-octet UDP reply without TC (the upstream read buffer is 4096 octets): returned as received
+			s.uc.WriteToUDP(c16Big(hx.BuildReply(q, false, 0, [4]byte{1, 1, 1, 1}, 60), 180), addr)
+		case "bigtc":
+			s.uc.WriteToUDP(c16Big(hx.BuildReply(q, true, 0, [4]byte{1, 1, 1, 2}, 60), 180), addr)
 		case "garbage":
 			s.uc.WriteToUDP([]byte{q[0], q[1], 0xff, 0xff, 0xff}, addr)
 		case "silent":
 		}
 	}
+}
+
+// c16Big appends n further A records (owner = pointer to the question name) to a one-answer reply
+func c16Big(r []byte, n int) []byte {
+	out := append([]byte(nil), r...)
+	for i := 0; i < n; i++ {
+		out = append(out, 0xc0, 0x0c, 0, 1, 0, 1, 0, 0, 0, 60, 0, 4, 9, 9, byte(i>>8), byte(i))
+	}
+	an := int(binary.BigEndian.Uint16(out[6:8])) + n
+	binary.BigEndian.PutUint16(out[6:8], uint16(an))
+	return out
 }
 
 func (s *fbServer) serveTCP() {
@@ -156,7 +172,7 @@ func runFallback(id string, parts []string) string {
 		res = "?"
 		if resp.Header.Truncated {
 			res = "TRUNCATED"
-		} else if len(resp.Answers) == 1 {
+		} else if len(resp.Answers) == 1 || len(resp.Answers) == 181 {
 			if a, ok := resp.Answers[0].(*dnsmsg.A); ok {
 				switch a.A {
 				case [4]byte{1, 1, 1, 1}:
